@@ -1,6 +1,7 @@
 #include "allocfault.h"
 #include <new>
 #include <cstdlib>
+#include <cstdio>
 #if defined(__has_feature)
 #if __has_feature(thread_sanitizer)
 #define AF_OFF 1
@@ -15,12 +16,22 @@ thread_local int exempt = 0;
 static bool armed = false, did_fire = false;
 static long countdown = -1;
 static unsigned long n_seen = 0;
+static int dbg = -1;
+static unsigned long size_lo = 1, size_hi = 0; // size-selected faults (off while lo > hi)
 void arm(long nth)
 {
   armed = true;
   did_fire = false;
   countdown = nth;
   n_seen = 0;
+  size_lo = 1;
+  size_hi = 0;
+}
+void arm_size(unsigned long lo, unsigned long hi)
+{
+  arm(-1);
+  size_lo = lo;
+  size_hi = hi;
 }
 void disarm() { armed = false; }
 bool fired() { return did_fire; }
@@ -29,11 +40,22 @@ unsigned long seen() { return n_seen; }
 bool available() { return false; }
 #else
 bool available() { return true; }
-static inline bool fail_now()
+static inline bool fail_now(unsigned long bytes)
 {
   if (!armed || exempt > 0)
     return false;
   n_seen++;
+  if (dbg < 0)
+    dbg = getenv("WV_DEBUG_ALLOC") ? 1 : 0;
+  if (dbg)
+    fprintf(stderr, "ALLOC %lu\n", bytes);
+  if (bytes >= size_lo && bytes <= size_hi)
+  {
+    did_fire = true;
+    size_lo = 1; // once: the first allocation of that size
+    size_hi = 0;
+    return true;
+  }
   if (countdown == 0)
   {
     countdown = -1;
@@ -49,7 +71,7 @@ static inline bool fail_now()
 #ifndef AF_OFF
 static void *af_alloc(std::size_t n)
 {
-  if (allocfault::fail_now())
+  if (allocfault::fail_now((unsigned long)n))
     throw std::bad_alloc();
   void *p = malloc(n ? n : 1);
   if (!p)
